@@ -11,7 +11,10 @@ judges every gradient component the code returns. Three engines, one case kind e
           ``value`` vs ``add_regularizer_to_criterion`` evaluated alone with the same (plain
           numpy) parameters and vs "criterion + sum of regularisers of the encoded parameters"
           assembled by the harness from ``param_encoding_pairs()``.
-``acq``   fitted ``GaussProcPredictor`` objects (0..4 pending evaluations, 1..10 fantasy samples)
+``acq``   fitted ``GaussProcPredictor`` objects (0..4 pending evaluations, 1..10 fantasy samples; single
+          posterior state from ``GaussianProcessRegression``, or 2..5 states per output with their own
+          hyper-parameters from the MCMC path ``GPRegressionMCMC`` / ``GaussProcMCMCEstimator``, also
+          with unequal state counts; the predictor dict of EIpu / CEI lists the active metric first or last)
           and EI / LCB / EIpu / CEI on top: ``compute_acq_with_gradient(x)`` vs differences of
           ``compute_acq`` (one batched call for the whole stencil), value equality, EI against
           the closed form from ``scipy.stats.norm`` with mean/std from ``predict`` and the
@@ -53,7 +56,8 @@ RULE = (
     "component is judged. acq case = tuning-job state (n 2..25, d 1..5, 0..4 pending, 1..10 fantasy samples, "
     "target+cost+constraint metrics, all/none/some candidates feasible) -> GaussProcPredictors (really "
     "fitted by L-BFGS or with random in-box parameters) -> EI, LCB, EIpu, CEI at several x in the open "
-    "cube (uniform, near the boundary, near a data point). ops case = random SPD / PSD matrices (n 1..12, "
+    "cube (uniform, near the boundary, near a data point); a second family uses MCMC surrogates (2..5 posterior "
+    "states per output, equal or unequal counts) and both orders of the predictor dict of EIpu/CEI. ops case = random SPD / PSD matrices (n 1..12, "
     "condition number up to 1e8) through cholesky_factorization / AddJitterOp. Distinct = digest of "
     "(kind, cell, sizes, what was decided / found non-smooth); non-trivial = at least one gradient "
     "component with a non-zero derivative was judged against a trustworthy difference quotient."
@@ -76,7 +80,8 @@ ASSUMPTIONS = [
     "differentiates with the sign of round-off (observed: 4 % error of d var/dx at distance 1.5e-8)",
     "x stays at least 1.5e-3 away from the faces of the unit cube so that the stencil stays inside the "
     "domain of the warping transform",
-    "MCMC predictors (GPRegressionMCMC) are not covered; surrogate = GaussianProcessRegression",
+    "MCMC predictors (several posterior states per output) are covered without pending evaluations only: "
+    "GaussProcMCMCEstimator with pending evaluations asserts whenever n_burnin > 0 or n_thinning > 1",
 ]
 CASE_TIMEOUT = 150
 SHARDS_PER_JOB = 3
@@ -170,8 +175,8 @@ def preload():
 CELLS = [(a, w, m, t) for a in (0, 1) for w in (0, 1) for m in ("scalar", "zero") for t in ("id", "boxcox")]
 SIZES = {
     # crit cases (x points each), acq cases (4 acquisition functions x xpoints each), ops cases
-    "quick": {"crit": 288, "crit_points": 5, "acq": 160, "acq_x": 5, "ops": 320},
-    "thorough": {"crit": 4800, "crit_points": 5, "acq": 3200, "acq_x": 5, "ops": 6400},
+    "quick": {"crit": 288, "crit_points": 5, "acq": 160, "acq_mcmc": 64, "acq_x": 5, "ops": 320},
+    "thorough": {"crit": 4800, "crit_points": 5, "acq": 3200, "acq_mcmc": 1280, "acq_x": 5, "ops": 6400},
 }
 
 
@@ -203,6 +208,23 @@ def cases(tier, seed):
                 "npend": npend, "nfant": int(rng.integers(1, 11)) if i % 3 else int(rng.integers(2, 11)),
                 "fit": bool(i % 3 == 0), "xpoints": sz["acq_x"],
                 "feas": ["mixed", "all", "none", "edge", "edge"][i % 5],
+                # order of the predictor dict handed to EIpu / CEI: active metric first or last
+                "order": "last" if (i // 2) % 2 else "first",
+            }
+        )
+    for i in range(sz["acq_mcmc"]):
+        # several posterior states per output (MCMC surrogate: hyper-parameters sampled by slice sampling);
+        # no pending evaluations (GaussProcMCMCEstimator draws n_samples fantasies but keeps
+        # (n_samples - n_burnin) // n_thinning states, which its own assertion rejects)
+        ard, warp, _, _ = CELLS[(i * 5 + i // 16) % len(CELLS)]
+        out.append(
+            {
+                "kind": "acq", "seed": base + 700000 + i, "n": int(rng.integers(3, 21)), "d": int(rng.integers(1, 5)),
+                "ard": ard, "warp": warp, "mean": "scalar", "transform": "id", "npend": 0, "nfant": 1,
+                "fit": True, "xpoints": sz["acq_x"], "feas": ["mixed", "all", "none"][i % 3],
+                "order": "first" if i % 4 == 0 else "last", "mcmc": True,
+                # retained samples per output model (target, cost, constraint); differ in half of the cases
+                "mcmc_states": [int(rng.integers(2, 6))] * 3 if i % 2 else [int(rng.integers(2, 6)) for _ in range(3)],
             }
         )
     for i in range(sz["ops"]):
@@ -228,6 +250,11 @@ def floors(tier):
         f["decided:acq_point:" + a] = 300 * m
         f["decided:acq_point:fantasies_gt1:" + a] = 200 * m
     f["decided:acq_point:fantasies_gt1"] = 1000 * m
+    for a in ("EIpu", "CEI"):
+        f["decided:acq_point:active_not_first:" + a] = 150 * m
+        f["decided:acq_point:mcmc_active_not_first:" + a] = 60 * m
+    f["decided:acq_point:mcmc"] = 300 * m
+    f["decided:ei_closed_form:mcmc"] = 100 * m
     f["decided:acq_point:CEI:none_feasible"] = 100 * m
     f["decided:acq_point:CEI:mixed"] = 15 * m
     f["decided:ei_closed_form"] = 600 * m
@@ -641,6 +668,30 @@ def _build_predictor(rng, spec, state, hp_ranges, metric, boxcox, normalize, fit
     return pred, _SPY["jitter_events"] > j0
 
 
+def _build_predictor_mcmc(rng, spec, state, hp_ranges, metric, normalize, n_states, seed):
+    """GaussProcPredictor with ``n_states`` posterior states (one per retained MCMC sample, each with
+    its own hyper-parameters) through the library's own MCMC path."""
+    from syne_tune.optimizer.schedulers.searchers.bayesopt.gpautograd.constants import MCMCConfig
+    from syne_tune.optimizer.schedulers.searchers.bayesopt.gpautograd.gpr_mcmc import GPRegressionMCMC
+    from syne_tune.optimizer.schedulers.searchers.bayesopt.gpautograd.kernel import Matern52
+    from syne_tune.optimizer.schedulers.searchers.bayesopt.gpautograd.warping import kernel_with_warping
+    from syne_tune.optimizer.schedulers.searchers.bayesopt.models.gp_mcmc_model import GaussProcMCMCEstimator
+
+    d = spec["d"]
+
+    def build_kernel():
+        kernel = Matern52(d, ARD=bool(spec["ard"]))
+        return kernel_with_warping(kernel, hp_ranges) if spec["warp"] else kernel
+
+    burn, thin = int(rng.integers(1, 4)), int(rng.integers(1, 3))
+    cfg = MCMCConfig(n_samples=burn + thin * n_states, n_burnin=burn, n_thinning=thin)
+    gpmodel = GPRegressionMCMC(build_kernel=build_kernel, mcmc_config=cfg, random_seed=int(seed % (2**31)))
+    est = GaussProcMCMCEstimator(gpmodel=gpmodel, active_metric=metric, normalize_targets=normalize)
+    j0 = _SPY["jitter_events"]
+    pred = est.fit_from_state(state, update_params=True)
+    return pred, _SPY["jitter_events"] > j0
+
+
 def _sample_x(rng, d, Xall, k):
     lo, hi = X_MARGIN, 1.0 - X_MARGIN
     mode = k % 5
@@ -677,14 +728,15 @@ def _clamps_active(preds, names, rows):
     out = set()
     for nm in names:
         p = preds[nm]
-        norm_var = np.asarray(p.posterior_states[0].predict(rows)[1], dtype=float)
-        if np.any(norm_var <= MIN_POSTERIOR_VARIANCE * (1 + 1e-9)):
-            out.add("variance_clamp:" + nm)
-        pr = p.predict(rows)[0]
-        if nm == _TARGET and np.any(np.asarray(pr["std"]) <= 1e-10 * (1 + 1e-6)):
-            out.add("std_clamp")
-        if nm == _COST and np.any(np.asarray(pr["mean"]) <= MIN_COST * (1 + 1e-6)):
-            out.add("cost_clamp")
+        for st in p.posterior_states:
+            norm_var = np.asarray(st.predict(rows)[1], dtype=float)
+            if np.any(norm_var <= MIN_POSTERIOR_VARIANCE * (1 + 1e-9)):
+                out.add("variance_clamp:" + nm)
+        for pr in p.predict(rows):
+            if nm == _TARGET and np.any(np.asarray(pr["std"]) <= 1e-10 * (1 + 1e-6)):
+                out.add("std_clamp")
+            if nm == _COST and np.any(np.asarray(pr["mean"]) <= MIN_COST * (1 + 1e-6)):
+                out.add("cost_clamp")
     return out
 
 
@@ -693,7 +745,10 @@ def _sqdist_guard_active(pred, x):
     distance between ``x`` and a training input is itself at round-off level, the sign of the computed
     ``D`` (and with it the derivative autograd assigns to ``abs``) is arbitrary. Detected with the
     model's own blocks (read-only): ``|D| <= 256 eps (|x_scaled|^2 + |X_i scaled|^2)``."""
-    st = pred.posterior_states[0]
+    return any(_sqdist_guard_active_state(st, x) for st in pred.posterior_states)
+
+
+def _sqdist_guard_active_state(st, x):
     kernel = st.kernel[0] if isinstance(st.kernel, tuple) else st.kernel
     X = np.asarray(st.features, dtype=float)
     R = np.asarray(x, dtype=float).reshape(1, -1)
@@ -723,21 +778,36 @@ def _run_acq(spec, o):
     cell = _cell_name(spec["ard"], spec["warp"], spec["mean"], spec["transform"])
     state, hp_ranges, Xall = _build_state(rng, spec)
     boxcox = spec["transform"] == "boxcox"
+    mcmc = bool(spec.get("mcmc"))
+    order = spec.get("order", "first")
     preds, jit_build = {}, {}
     for k, metric in enumerate((_TARGET, _COST, _CONSTR)):
         bc = boxcox if metric == _TARGET else False
         normalize = (not bc) and (rng.random() < 0.8) if metric != _COST else False
         try:
-            preds[metric], jit_build[metric] = _build_predictor(
-                rng, spec, state, hp_ranges, metric, bc, normalize, spec["fit"], spec["seed"] + k)
+            if mcmc:
+                preds[metric], jit_build[metric] = _build_predictor_mcmc(
+                    rng, spec, state, hp_ranges, metric, normalize, spec["mcmc_states"][k], spec["seed"] + k)
+            else:
+                preds[metric], jit_build[metric] = _build_predictor(
+                    rng, spec, state, hp_ranges, metric, bc, normalize, spec["fit"], spec["seed"] + k)
         except Exception as e:  # noqa: BLE001 - building the surrogate is set-up, not the property
             o.inconclusive("acq_predictor_build_failed:" + type(e).__name__)
             o.set_sig(["acq", "build_failed", type(e).__name__], False)
             o.sample = {"kind": "acq", "build_failed": repr(e)[:200]}
             return
     o.count("acq_cases")
-    o.count("acq_cases:fit" if spec["fit"] else "acq_cases:random_params")
+    o.count("acq_cases:mcmc" if mcmc else ("acq_cases:fit" if spec["fit"] else "acq_cases:random_params"))
     nf = spec["nfant"] if spec["npend"] > 0 else 1
+    nstates = {k: len(p.posterior_states) for k, p in preds.items()}
+    multi_state = any(v > 1 for v in nstates.values())
+    tag = "mcmc" if multi_state else ("nf_gt1" if nf > 1 else "nf1")
+
+    def pdict(second):
+        # the caller's dict order is free: "If model is a dict mapping output names to models, then
+        # active_metric must be given" (MeanStdAcquisitionFunction)
+        return {_TARGET: preds[_TARGET], second: preds[second]} if order == "first" else {second: preds[second], _TARGET: preds[_TARGET]}
+
     if any(jit_build.values()):
         o.count("acq_cases_jitter_in_posterior_state")  # constant in x: not a non-smoothness here
     xi = [0.01, 0.01, 0.0, float(10 ** rng.uniform(-4, 0))][int(rng.integers(4))]
@@ -747,16 +817,15 @@ def _run_acq(spec, o):
     try:
         acqs["EI"] = (EIAcquisitionFunction(preds[_TARGET], jitter=xi), [_TARGET])
         acqs["LCB"] = (LCBAcquisitionFunction(preds[_TARGET], kappa=kappa), [_TARGET])
-        acqs["EIpu"] = (EIpuAcquisitionFunction({_TARGET: preds[_TARGET], _COST: preds[_COST]}, active_metric=_TARGET, exponent_cost=expo, jitter=xi), [_TARGET, _COST])
-        acqs["CEI"] = (CEIAcquisitionFunction({_TARGET: preds[_TARGET], _CONSTR: preds[_CONSTR]}, active_metric=_TARGET, jitter=xi), [_TARGET, _CONSTR])
+        acqs["EIpu"] = (EIpuAcquisitionFunction(pdict(_COST), active_metric=_TARGET, exponent_cost=expo, jitter=xi), [_TARGET, _COST])
+        acqs["CEI"] = (CEIAcquisitionFunction(pdict(_CONSTR), active_metric=_TARGET, jitter=xi), [_TARGET, _CONSTR])
     except Exception as e:  # noqa: BLE001
         o.violate("acquisition_gradient", f"raised:acquisition_constructor:{type(e).__name__}", {"error": repr(e)[:300]})
         return
     # incumbent recomputed by the harness: min of the predictive means over observed + pending candidates
-    means_all = np.asarray(preds[_TARGET].predict(Xall)[0]["mean"], dtype=float)
-    means_all = means_all.reshape(Xall.shape[0], -1)
-    inc = np.min(means_all, axis=0)  # (nf,)
-    cmeans = np.asarray(preds[_CONSTR].predict(Xall)[0]["mean"], dtype=float).reshape(Xall.shape[0], -1)
+    # (one incumbent vector per posterior state of the target model)
+    incs = [np.min(np.asarray(pr["mean"], dtype=float).reshape(Xall.shape[0], -1), axis=0) for pr in preds[_TARGET].predict(Xall)]
+    cmeans = np.hstack([np.asarray(pr["mean"], dtype=float).reshape(Xall.shape[0], -1) for pr in preds[_CONSTR].predict(Xall)])
     feas_per_f = np.any(cmeans < 0, axis=0)
     cei_regime = "all_feasible" if np.all(feas_per_f) else ("none_feasible" if not np.any(feas_per_f) else "mixed")
     cei_margin = bool(np.any(np.abs(cmeans) <= 1e-12 * max(1.0, float(np.max(np.abs(cmeans))))))
@@ -800,7 +869,7 @@ def _run_acq(spec, o):
                 o.count("decided:acq_value")
                 o.count("decided:acq_value:" + name)
                 if not _value_equal(fv, v1, 1e-300):
-                    o.violate("value_with_gradient_equals_value_alone", f"acq_value_mismatch:{name}:{'nf_gt1' if nf > 1 else 'nf1'}",
+                    o.violate("value_with_gradient_equals_value_alone", f"acq_value_mismatch:{name}:{tag}",
                               {"with_grad": fv, "alone": v1, "alone_in_batch": v0, "x": x, "cell": cell, "nf": nf, "npend": spec["npend"]})
                 elif fv != v1:
                     o.count("roundoff_band:acq_value")
@@ -815,14 +884,15 @@ def _run_acq(spec, o):
             if name not in ("EI", "EIpu", "CEI"):
                 clamps.discard("std_clamp")  # only get_quantiles clamps the std
             # ---- EI: closed form and sign (needs the smooth regime only for the closed form)
-            pr = preds[_TARGET].predict(x.reshape(1, -1))[0]
-            m = np.asarray(pr["mean"], dtype=float).reshape(-1)
-            s = float(np.asarray(pr["std"]).reshape(-1)[0])
+            prs = preds[_TARGET].predict(x.reshape(1, -1))
+            ms = [np.asarray(pr["mean"], dtype=float).reshape(-1) for pr in prs]
+            ss = [float(np.asarray(pr["std"]).reshape(-1)[0]) for pr in prs]
+            s = min(ss)
             if name in ("EI", "EIpu", "CEI") and s > 0:
-                u = (inc - m - xi) / max(s, 1e-10)
-                scale = float(np.mean(max(s, 1e-10) * (np.abs(u) * norm.cdf(u) + norm.pdf(u))))
+                us = [(inc - m - xi) / max(s_, 1e-10) for inc, m, s_ in zip(incs, ms, ss)]
+                scale = float(np.mean([np.mean(max(s_, 1e-10) * (np.abs(u) * norm.cdf(u) + norm.pdf(u))) for u, s_ in zip(us, ss)]))
                 if name == "EIpu":
-                    cm = np.maximum(np.asarray(preds[_COST].predict(x.reshape(1, -1))[0]["mean"], dtype=float).reshape(-1), 1e-12)
+                    cm = np.maximum(np.hstack([np.asarray(pr["mean"], dtype=float).reshape(-1) for pr in preds[_COST].predict(x.reshape(1, -1))]), 1e-12)
                     scale = scale * float(np.max(np.power(cm, -expo)))
                 if name == "CEI":
                     scale = max(scale, 1.0) if cei_regime != "all_feasible" else scale
@@ -834,13 +904,16 @@ def _run_acq(spec, o):
                     if "std_clamp" in clamps and s <= 1e-10 * (1 + 1e-6):
                         o.count("nonsmooth:std_clamp_closed_form")
                     else:
-                        closed = float(np.mean((inc - m - xi) * norm.cdf(u) + s * norm.pdf(u)))
+                        # average over posterior states of the per-state closed form (mean over fantasies)
+                        closed = float(np.mean([np.mean((inc - m - xi) * norm.cdf(u) + s_ * norm.pdf(u)) for inc, m, s_, u in zip(incs, ms, ss, us)]))
                         o.count("decided:ei_closed_form")
                         if nf > 1:
                             o.count("decided:ei_closed_form:fantasies_gt1")
+                        if multi_state:
+                            o.count("decided:ei_closed_form:mcmc")
                         if abs(-v1 - closed) > 1e-9 * scale + 1e-300:
-                            o.violate("expected_improvement_closed_form", f"ei_closed_form_mismatch:{'nf_gt1' if nf > 1 else 'nf1'}",
-                                      {"minus_acq": -v1, "closed_form": closed, "mean": m, "std": s, "incumbent": inc, "xi": xi, "x": x, "cell": cell})
+                            o.violate("expected_improvement_closed_form", f"ei_closed_form_mismatch:{tag}",
+                                      {"minus_acq": -v1, "closed_form": closed, "mean": ms, "std": ss, "incumbent": incs, "xi": xi, "x": x, "cell": cell})
             # ---- gradient
             if clamps:
                 for c in sorted(clamps):
@@ -882,10 +955,10 @@ def _run_acq(spec, o):
                 if verdict == "violated":
                     o.violate(
                         "acquisition_gradient",
-                        f"acq_grad_mismatch:{name}:{'nf_gt1' if nf > 1 else 'nf1'}:{_ratio_class(gi, dres.value)}",
+                        f"acq_grad_mismatch:{name}:{tag}:{_ratio_class(gi, dres.value)}",
                         {"acq": name, "component": i, "grad": gi, "richardson": dres.value, "err_estimate": dres.err, "tol": tol, "h": dres.h,
                          "value": v0, "x": x, "cell": cell, "nf": nf, "npend": spec["npend"], "n": spec["n"], "d": d, "fit": spec["fit"],
-                         "cei_regime": cei_regime if name == "CEI" else None},
+                         "cei_regime": cei_regime if name == "CEI" else None, "dict_order": "active_" + order, "posterior_states": nstates},
                     )
             if n_inc == 0:
                 o.count("decided:acq_point:" + name)
@@ -893,6 +966,14 @@ def _run_acq(spec, o):
                 if nf > 1:
                     o.count("decided:acq_point:fantasies_gt1")
                     o.count("decided:acq_point:fantasies_gt1:" + name)
+                if multi_state:
+                    o.count("decided:acq_point:mcmc")
+                    if len(set(nstates[nm] for nm in used)) > 1:
+                        o.count("decided:acq_point:mcmc_unequal_state_counts")
+                if order == "last" and name in ("EIpu", "CEI"):
+                    o.count("decided:acq_point:active_not_first:" + name)
+                    if multi_state:
+                        o.count("decided:acq_point:mcmc_active_not_first:" + name)
                 if name == "CEI":
                     o.count("decided:acq_point:CEI:" + cei_regime)
                 obs_sig.append((name, "all"))
@@ -903,8 +984,9 @@ def _run_acq(spec, o):
             else:
                 o.inconclusive("acq_point_no_component_trustworthy")
                 obs_sig.append((name, "none"))
-    o.set_sig(["acq", cell, spec["fit"], min(spec["n"] // 5, 4), d, spec["npend"], nf, cei_regime, sorted(set(obs_sig))], nontrivial=decided_any)
+    o.set_sig(["acq", cell, spec["fit"], min(spec["n"] // 5, 4), d, spec["npend"], nf, cei_regime, order, sorted(nstates.items()), sorted(set(obs_sig))], nontrivial=decided_any)
     o.sample = {"kind": "acq", "cell": cell, "n": spec["n"], "d": d, "npend": spec["npend"], "nf": nf, "fit": spec["fit"],
+                "dict_order": "active_" + order, "posterior_states": nstates,
                 "cei_regime": cei_regime, "xi": xi, "kappa": kappa, "exponent_cost": expo, "points": sorted(set(obs_sig))}
 
 
